@@ -155,7 +155,7 @@ def run(res, tier, seed, model_ok, search):
     res.evaluations += sub.evaluations
     res.distribution["live-histories"] += sub.evaluations
     for v in sub.violations:
-        if v["signature"] in ("live-order-not-in-live-list", "duplicate-in-live-list", "lookup:id", "live-list-holds-unknown-order", "live-processing-crashed"):
+        if v["signature"] in ("live-order-not-in-live-list", "duplicate-in-live-list", "lookup:id", "lookup:bet-id", "live-list-holds-unknown-order", "live-processing-crashed"):
             res.violations.append(v)
 
 
